@@ -27,7 +27,8 @@ Definition sw_miner : st_state :=
   {| g_conf := [("owner_id", SvS "0a"); ("min_n", SvZ 3); ("max_n", SvZ 7); ("min_s", SvZ 1); ("max_s", SvZ 2);
                 ("max_delegates", SvZ 200); ("num_sharder_delegates_rewarded", SvZ 5);
                 ("num_miner_delegates_rewarded", SvZ 10); ("num_sharders_rewarded", SvZ 1);
-                ("min_stake", SvZ 0); ("cost.add_miner", SvZ 361)];
+                ("min_stake", SvZ 0); ("cost.add_miner", SvZ 361);
+                ("x_percent", SvF 4604480259023595110)];
      g_pend := [] |}.
 
 Definition sw_vesting : st_state :=
